@@ -40,10 +40,24 @@ def gen_cases(tier, seed):
         nam = r.choice(NAMES + [None, None])
         p["name"] = nam
         cli_name = r.choice(NAMES + [None, None])
+        outs = r.choice(combos)
+        # every naming situation on every output kind in every run, whatever the seed
+        if k % 9 == 3:
+            nam = p["name"] = None
+            cli_name = None
+            outs = combos[(k // 9) % len(combos)]
+        elif k % 9 == 4:
+            nam = p["name"] = NAMES[(k // 9) % len(NAMES)]
+            cli_name = None
+            outs = combos[(k // 9) % len(combos)]
+        elif k % 9 == 5:
+            nam = p["name"] = None
+            cli_name = NAMES[(k // 9) % len(NAMES)]
+            outs = combos[(k // 9) % len(combos)]
         if r.random() < 0.3:
             lab = next((s["label"] for s in p["stmts"] if s["label"]), None)
             p["end"] = "{%s}" % lab if lab and r.random() < 0.6 else ""
-        yield {"id": "prog/%d" % k, "lines": progs.render(p), "nam": nam, "cli_name": cli_name, "outs": r.choice(combos), "sub": k < (60 if thorough else 6)}
+        yield {"id": "prog/%d" % k, "lines": progs.render(p), "nam": nam, "cli_name": cli_name, "outs": outs, "sub": k < (60 if thorough else 6)}
     sizes = [0, 1, 255, 256, 2293, 2294, 2295, 2303, 2304, 4598, 4599, 4603, 9206, 65535] if thorough else [0, 255, 256, 2294, 2295, 2304, 65535]
     for L in sizes:
         for org in (0x1000, 0x10, None):
